@@ -6,4 +6,8 @@ export PYTHONDONTWRITEBYTECODE=1
 export PYTHONPATH="${VERIF_REPO:-/repo}:$PWD/shims:$PWD"
 PY=/venv/bin/python
 [ -x "$PY" ] || PY=python3
+mkdir -p build
+if command -v gcc >/dev/null 2>&1; then
+  gcc -O2 -shared -fPIC -o build/libvsat.so vmc/vsat.c || echo "warning: C solver not built, using the Python one"
+fi
 exec "$PY" -m vmc.selftest
